@@ -96,6 +96,12 @@ def make_wf(ops):
     return out
 
 
+def user_dir_is_new(case):
+    """whether the caller-supplied data directory exists before launch(); unless the case says so
+    (`user_dir_new`), every other history starts with a directory that launch() has to create"""
+    return bool(case.get('user_dir_new', len(case.get('ops', ())) % 2 == 1))
+
+
 class P(core.Prop):
     pid = 'C19'
     check_mod = 'Check.C19'
@@ -260,6 +266,9 @@ class P(core.Prop):
         ddir_made = [None]
         if case['user_dir']:
             ddir = tempfile.mkdtemp(prefix='userdir', dir=SCRATCH)
+            if user_dir_is_new(case):
+                # a caller's directory that does not exist yet (launch() creates it): still the caller's
+                os.rmdir(ddir)
         else:
             ddir = None
         config = TorConfig()
@@ -483,7 +492,7 @@ class P(core.Prop):
     def kind(self, case, obs):
         held = any(o[0] == 'attach' and any(e[0] == 'fired' and e[1] == 0 for e in ch)
                    for o, ch in zip(case['ops'], obs['chunks'][1:]))
-        return '%s/%s%s%s%s' % (self._outcome(obs), 'userdir' if case['user_dir'] else 'tmpdir',
+        return '%s/%s%s%s%s' % (self._outcome(obs), ('userdir-new' if user_dir_is_new(case) else 'userdir') if case['user_dir'] else 'tmpdir',
                                 '' if case['timeout'] else '/no-timeout', '/result-after-attach' if held else '',
                                 '/via-launch_tor' if case.get('entry') == 'launch_tor' else '')
 
